@@ -323,6 +323,15 @@ namespace Pistache::Tcp
                     auto file    = buffer.fd();
                     off_t offset = totalWritten;
                     bytesWritten = sendFile(fd, file, offset, len);
+                    if (bytesWritten == 0 && len > 0)
+                    {
+                        // the file has become shorter than it was when it was queued: there is
+                        // nothing more to send, and retrying would never end
+                        closeIfFile(buffer);
+                        cleanUp();
+                        deferred.reject(Pistache::Error("File shorter than expected"));
+                        break;
+                    }
                 }
                 if (bytesWritten < 0)
                 {
